@@ -331,10 +331,257 @@ def _inline_temps(fn):
         block(fn.body)
 
 
-def normalise(tree):
+# ---------------------------------------------------------------------------
+# N5: a call of a small private helper is its body.  Only where that is exactly
+# equivalent:
+#   * the helper is a private (leading underscore) function of the same module
+#     or method of the same class, defined once, undecorated (staticmethod
+#     aside), not a generator, with no nested function, global or nonlocal;
+#   * the call is a whole statement: `h(a)`, `x = h(a)`, `return h(a)`;
+#   * every argument is a plain name / attribute chain / constant (evaluating
+#     it twice or later changes nothing), positional, one per parameter;
+#   * for `h(a)` and `x = h(a)` the helper has no `return` except, possibly, one
+#     as its last statement; for `return h(a)` any returns are fine (tail call);
+#   * the helper does not assign to its parameters and does not call itself.
+_PURE_ARG = (ast.Name, ast.Constant)
+
+
+def _pure_arg(e):
+    if isinstance(e, _PURE_ARG):
+        return True
+    if isinstance(e, ast.Attribute):
+        return _pure_arg(e.value)
+    return False
+
+
+def _own_nodes(fn):
+    """Nodes of fn's body, not descending into nested defs/lambdas/classes."""
+    stack = list(fn.body)
+    while stack:
+        n = stack.pop()
+        yield n
+        for c in ast.iter_child_nodes(n):
+            if isinstance(c, (ast.FunctionDef, ast.AsyncFunctionDef, ast.Lambda, ast.ClassDef)):
+                yield c
+                continue
+            stack.append(c)
+
+
+def _helper_info(fn):
+    """None if fn cannot be inlined, else dict(params, body, tail_only)."""
+    if not fn.name.startswith("_") or fn.name.startswith("__"):
+        return None
+    decs = [ast.unparse(d) for d in fn.decorator_list]
+    if any(d != "staticmethod" for d in decs):
+        return None
+    a = fn.args
+    if a.vararg or a.kwarg or a.kwonlyargs or a.posonlyargs or a.defaults:
+        return None
+    params = [x.arg for x in a.args]
+    is_method_self = bool(params) and params[0] == "self" and "staticmethod" not in decs
+    body = list(fn.body)
+    if body and isinstance(body[0], ast.Expr) and isinstance(body[0].value, ast.Constant) \
+            and isinstance(body[0].value.value, str):
+        body = body[1:]
+    if not body or len(body) > 40:
+        return None
+    stored = set()
+    returns = []
+    for n in _own_nodes(fn):
+        if isinstance(n, (ast.Yield, ast.YieldFrom, ast.Await, ast.Global, ast.Nonlocal,
+                          ast.FunctionDef, ast.AsyncFunctionDef, ast.Lambda, ast.ClassDef)):
+            return None
+        if isinstance(n, ast.Name) and isinstance(n.ctx, (ast.Store, ast.Del)):
+            stored.add(n.id)
+        if isinstance(n, ast.ExceptHandler) and n.name:
+            stored.add(n.name)
+        if isinstance(n, ast.Return):
+            returns.append(n)
+        if isinstance(n, ast.Call):
+            f = n.func
+            if (isinstance(f, ast.Name) and f.id == fn.name) or \
+                    (isinstance(f, ast.Attribute) and f.attr == fn.name):
+                return None
+        if isinstance(n, ast.Name) and n.id in ("locals", "vars", "super"):
+            return None
+    if stored & set(params):
+        return None
+    single_tail = (not returns) or (len(returns) == 1 and body[-1] is returns[0])
+    return {"params": params, "self": is_method_self, "body": body, "locals": stored,
+            "single_tail": single_tail, "name": fn.name}
+
+
+class _Ren(ast.NodeTransformer):
+    def __init__(self, names, subst):
+        self.names, self.subst = names, subst
+
+    def visit_Name(self, n):
+        if n.id in self.subst and isinstance(n.ctx, ast.Load):
+            import copy
+            return copy.deepcopy(self.subst[n.id])
+        if n.id in self.names:
+            n.id = self.names[n.id]
+        return n
+
+    def visit_ExceptHandler(self, h):
+        if h.name in self.names:
+            h.name = self.names[h.name]
+        self.generic_visit(h)
+        return h
+
+
+def _inline_helpers(tree, known=frozenset()):
+    """`known`: qualified names ("f", "Cls.m") of the functions that existed on
+    the reference tree - the rules anchor on some of them by name, so only
+    helpers that are NEW with respect to it are inlined (an extracted helper is
+    folded back into the code it was cut out of)."""
+    import copy
+    modfuncs, dup = {}, set()
+    clsfuncs = {}
+
+    def index(body, cls):
+        for st in body:
+            if isinstance(st, (ast.FunctionDef,)):
+                key = (cls, st.name)
+                tbl = clsfuncs if cls else modfuncs
+                k2 = key if cls else st.name
+                if k2 in tbl:
+                    dup.add(k2)
+                tbl[k2] = st
+            elif isinstance(st, ast.ClassDef) and cls is None:
+                index(st.body, st.name)
+            elif isinstance(st, (ast.If, ast.Try)):
+                for f in ("body", "orelse", "finalbody"):
+                    index(getattr(st, f, []) or [], cls)
+                for h in getattr(st, "handlers", []) or []:
+                    index(h.body, cls)
+    index(tree.body, None)
+    infos = {}
+
+    def info_for(call, cls):
+        f = call.func
+        fn = None
+        key = None
+        if isinstance(f, ast.Name) and f.id in modfuncs and f.id not in dup:
+            fn, key = modfuncs[f.id], f.id
+        elif isinstance(f, ast.Attribute) and isinstance(f.value, ast.Name) and f.value.id == "self" \
+                and cls and (cls, f.attr) in clsfuncs and (cls, f.attr) not in dup:
+            fn, key = clsfuncs[(cls, f.attr)], (cls, f.attr)
+        if fn is None:
+            return None
+        qn = key if isinstance(key, str) else f"{key[0]}.{key[1]}"
+        if qn in known:
+            return None
+        if key not in infos:
+            infos[key] = _helper_info(fn)
+        inf = infos[key]
+        if inf is None or call.keywords:
+            return None
+        params = inf["params"][1:] if inf["self"] else inf["params"]
+        if isinstance(f, ast.Name) and inf["self"]:
+            return None
+        if len(call.args) != len(params) or not all(_pure_arg(a) for a in call.args):
+            return None
+        return inf, params
+
+    counter = [0]
+
+    def expand(call, cls, ctx_kind, target_stmt):
+        r = info_for(call, cls)
+        if r is None:
+            return None
+        inf, params = r
+        if ctx_kind in ("expr", "assign") and not inf["single_tail"]:
+            return None
+        counter[0] += 1
+        names = {x: f"{inf['name'].lstrip('_')}__{x}" for x in inf["locals"]}
+        subst = dict(zip(params, call.args))
+        body = [_Ren(names, subst).visit(copy.deepcopy(st)) for st in inf["body"]]
+        if ctx_kind == "return":
+            return body
+        last = body[-1] if body and isinstance(body[-1], ast.Return) else None
+        if last is not None:
+            body = body[:-1]
+        if ctx_kind == "expr":
+            if last is not None and last.value is not None and not _pure_arg(last.value):
+                body.append(ast.Expr(value=last.value))
+            return body or [ast.Pass()]
+        # assign
+        val = last.value if (last is not None and last.value is not None) else ast.Constant(None)
+        new = copy.copy(target_stmt)
+        new.value = val
+        return body + [new]
+
+    def block(stmts, cls, depth):
+        out = []
+        for st in stmts:
+            rep = None
+            if depth < 3:
+                if isinstance(st, ast.Expr) and isinstance(st.value, ast.Call):
+                    rep = expand(st.value, cls, "expr", st)
+                elif isinstance(st, ast.Assign) and isinstance(st.value, ast.Call):
+                    rep = expand(st.value, cls, "assign", st)
+                elif isinstance(st, ast.Return) and isinstance(st.value, ast.Call):
+                    rep = expand(st.value, cls, "return", st)
+            if rep is not None:
+                for r in rep:
+                    ast.copy_location(r, r) if hasattr(r, "lineno") else ast.copy_location(r, st)
+                out.extend(block(rep, cls, depth + 1))
+                continue
+            for f in ("body", "orelse", "finalbody"):
+                sub = getattr(st, f, None)
+                if isinstance(sub, list) and sub and isinstance(sub[0], ast.stmt) \
+                        and not isinstance(st, ast.ClassDef):
+                    setattr(st, f, block(sub, cls, depth))
+            for h in getattr(st, "handlers", []) or []:
+                h.body = block(h.body, cls, depth)
+            out.append(st)
+        return out
+
+    def walk_defs(body, cls):
+        for st in body:
+            if isinstance(st, (ast.FunctionDef, ast.AsyncFunctionDef)):
+                st.body = block(st.body, cls, 0)
+            elif isinstance(st, ast.ClassDef):
+                walk_defs(st.body, st.name if cls is None else cls)
+            elif isinstance(st, (ast.If, ast.Try, ast.With, ast.For, ast.While)):
+                for f in ("body", "orelse", "finalbody"):
+                    walk_defs(getattr(st, f, []) or [], cls)
+                for h in getattr(st, "handlers", []) or []:
+                    walk_defs(h.body, cls)
+    walk_defs(tree.body, None)
+    # a new helper whose every use was folded back is gone from the program
+    used_keys = [k for k, v in infos.items() if v is not None]
+    for key in used_keys:
+        name = key if isinstance(key, str) else key[1]
+        fn = modfuncs[key] if isinstance(key, str) else clsfuncs[key]
+        refs = 0
+        for n in ast.walk(tree):
+            if n is fn:
+                continue
+            if isinstance(n, ast.Name) and n.id == name:
+                refs += 1
+            elif isinstance(n, ast.Attribute) and n.attr == name:
+                refs += 1
+        inside = sum(1 for n in ast.walk(fn) if (isinstance(n, ast.Name) and n.id == name)
+                     or (isinstance(n, ast.Attribute) and n.attr == name))
+        if refs - inside == 0:
+            for parent in ast.walk(tree):
+                for f in ("body", "orelse", "finalbody"):
+                    b = getattr(parent, f, None)
+                    if isinstance(b, list) and fn in b:
+                        b.remove(fn)
+                        if not b:
+                            b.append(ast.Pass())
+    ast.fix_missing_locations(tree)
+
+
+def normalise(tree, known=None):
     _Cmp().visit(tree)
     _If().visit(tree)
     import os as _os
+    if not _os.environ.get("VERIF_NO_N5") and known is not None:
+        _inline_helpers(tree, known)
     for n in ast.walk(tree):
         if isinstance(n, (ast.FunctionDef, ast.AsyncFunctionDef)):
             _inline_return_temps(n)
